@@ -4,6 +4,7 @@ import Qentem.Proofs.NumToStrRound
 import Qentem.Proofs.NumToStrParse
 import Qentem.Props.C10
 import Qentem.Proofs.NumToStrIdent
+import Qentem.Proofs.NumToStrMargin
 /-! C11 — every finite double survives format(17 digits) then parse, bit for bit; every float
 survives 9 digits.
 
@@ -200,6 +201,42 @@ theorem roundtrip17_of_parser (parse : List Nat → Option Nat) (hp : ParsesExac
 
 theorem roundtrip9_of_parser (parse : List Nat → Option Nat) (hp : ParsesExactly9 parse) : RoundTrip9 parse :=
   roundtrip9_of_halves parse identifies9 hp
+
+/-! ### interface for the parser half (robust form of the formatter half) -/
+
+open Qentem.Proofs.Ident in
+/-- `text_margin17`: for every finite non-zero double the reference `%.17g` text reads as `(sign, m, d)` with
+`|m/d − |x|| < 2^52/10^16 ulp(x)` (`< 0.4504 ulp`); every rational within `ulp/64` of `m/d` lies strictly between
+the rounding midpoints around `|x|` (a quarter ulp below a power of two), and `FmtSpec.nearestBits` maps it to the
+bits.  So a parser whose computed value is within `ulp/64` of the text's exact value and that rounds correctly
+away from ties (nearest-even, half-up, …) returns `x`.  (`Proofs/NumToStrMargin.lean`; generic in the format.) -/
+theorem text_margin17 (b : Nat) (hb : isFinite64 b) (hnz : (b / 2 ^ 52) % 2 ^ 11 ≠ 0 ∨ b % 2 ^ 52 ≠ 0) :
+    ∃ m d : Nat, 0 < d ∧
+      FmtSpec.readDecimal (FmtSpec.format64 b 17 .default) = some (decide ((b / 2 ^ 63) % 2 = 1), m, d) ∧
+      |(m : ℚ) / d - magQ 52 11 b| < (2 : ℚ) ^ 52 / 10 ^ 16 * ulpQ 52 11 b ∧
+      (∀ y : ℚ, |y - (m : ℚ) / d| ≤ 1 / 64 * ulpQ 52 11 b →
+        magQ 52 11 b - ulpQ 52 11 b / 2 < y ∧ y < magQ 52 11 b + ulpQ 52 11 b / 2 ∧
+        (sigField 52 11 b = 2 ^ 52 → magQ 52 11 b - ulpQ 52 11 b / 4 < y)) ∧
+      (∀ rn rd : Nat, 0 < rd → |(rn : ℚ) / rd - (m : ℚ) / d| ≤ 1 / 64 * ulpQ 52 11 b →
+        FmtSpec.nearestBits 52 11 (decide ((b / 2 ^ 63) % 2 = 1)) rn rd = b) :=
+  margin17 b hb.1 hb.2 hnz
+
+open Qentem.Proofs.Ident in
+/-- `text_margin9`: the same for floats (`2^23/10^8 < 0.084 ulp`) -/
+theorem text_margin9 (b : Nat) (hb : isFinite32 b) (hnz : (b / 2 ^ 23) % 2 ^ 8 ≠ 0 ∨ b % 2 ^ 23 ≠ 0) :
+    ∃ m d : Nat, 0 < d ∧
+      FmtSpec.readDecimal (FmtSpec.format32 b 9 .default) = some (decide ((b / 2 ^ 31) % 2 = 1), m, d) ∧
+      |(m : ℚ) / d - magQ 23 8 b| < (2 : ℚ) ^ 23 / 10 ^ 8 * ulpQ 23 8 b ∧
+      (∀ y : ℚ, |y - (m : ℚ) / d| ≤ 1 / 64 * ulpQ 23 8 b →
+        magQ 23 8 b - ulpQ 23 8 b / 2 < y ∧ y < magQ 23 8 b + ulpQ 23 8 b / 2 ∧
+        (sigField 23 8 b = 2 ^ 23 → magQ 23 8 b - ulpQ 23 8 b / 4 < y)) ∧
+      (∀ rn rd : Nat, 0 < rd → |(rn : ℚ) / rd - (m : ℚ) / d| ≤ 1 / 64 * ulpQ 23 8 b →
+        FmtSpec.nearestBits 23 8 (decide ((b / 2 ^ 31) % 2 = 1)) rn rd = b) :=
+  margin9 b hb.1 hb.2 hnz
+
+/-- non-vacuity / sanity: for 0.1 the fields are e1 = 1019, M = 0x1999999999999A -/
+example : Qentem.Proofs.Ident.expField 52 11 0x3FB999999999999A = 1019 ∧
+    Qentem.Proofs.Ident.sigField 52 11 0x3FB999999999999A = 0x1999999999999A := by decide
 
 /-- non-vacuity: 3.0 and -(2^53 - 1) satisfy the hypotheses -/
 example : Qentem.Proofs.NumToStr.IntValued64 ((0x4008000000000000 / 2 ^ 52) % 2 ^ 11) (0x4008000000000000 % 2 ^ 52) 51 := by
